@@ -724,12 +724,26 @@ func (lb *LoadBalancer) proxyRequest(backend *Backend, w http.ResponseWriter, r 
 		statusCode:     http.StatusOK, // Default status code
 	}
 
+	// The reverse proxy aborts a response that fails mid-body (backend reset, client gone)
+	// by panicking with http.ErrAbortHandler. The bookkeeping below must run in that case
+	// too, otherwise the connection gauge leaks and the request is never accounted for.
+	completed := false
+	defer func() {
+		// Decrement the connection count when done
+		backend.DecrementConnections()
+		lb.metricsCollector.UpdateBackendConnections(backend.Name, backend.GetActiveConnections())
+
+		if !completed {
+			// Aborted response: a failed request
+			responseTime := time.Since(startTime)
+			lb.metricsCollector.RecordResponse(false, responseTime)
+			lb.metricsCollector.RecordBackendRequest(backend.Name, false, responseTime)
+		}
+	}()
+
 	// Forward the request to the selected backend
 	backend.ReverseProxy.ServeHTTP(rw, r)
-
-	// Decrement the connection count when done
-	backend.DecrementConnections()
-	lb.metricsCollector.UpdateBackendConnections(backend.Name, backend.GetActiveConnections())
+	completed = true
 
 	// Record metrics and handle passive health checks
 	lb.recordRequestMetrics(backend, rw.statusCode, startTime, r)
